@@ -641,6 +641,16 @@ def directed_cases():
             out.append({"sig": ["int", "int", "int"], "_form": "directed",
                         "surface": {"form": "disj", "guard": g,
                                     "pats": [("tuple", alt), ("tuple", [("cmp", bb, vint(7)), ("wild",), ("cmp", not a, vint(3))])]}})
+    # an alternative made of wildcards only, under a guard that binds nothing (constants): the guard still decides
+    w = ("wild",)
+    for g in (("const", False), ("const", True), ("and", ("const", True), ("const", False)), ("not", ("paren", ("const", True))),
+              ("or", ("const", False), ("const", False))):
+        out.append({"sig": ["int"], "_form": "directed", "surface": {"form": "simple", "pats": [("tuple", [w])], "guard": g}})
+        out.append({"sig": ["int", "int"], "_form": "directed", "surface": {"form": "simple", "pats": [("tuple", [w, w])], "guard": g}})
+        out.append({"sig": ["int", "int"], "_form": "directed", "surface": {"form": "disj", "guard": g,
+                                                                          "pats": [("tuple", [("int", 3), ("int", 7)]), ("tuple", [w, w])]}})
+        out.append({"sig": ["enum", "str"], "_form": "directed", "surface": {"form": "disj", "guard": g,
+                                                                           "pats": [("tuple", [w, w]), ("tuple", [("ctor", "A", []), ("strlit", "ab")])]}})
     # zero-argument functions: matching!() and the guarded empty tuple `() if g` (the guard can only be built
     # from constants; the analysed argument list is empty but the pattern list is not)
     tt, ff = ("const", True), ("const", False)
